@@ -49,6 +49,12 @@ struct Cfg {
     /// (is_gen, thread, ordinal)
     panic: Option<(bool, u32, u64)>,
     udrop: bool,
+    /// Virtual ticks one benchmarked call costs.
+    cost: u64,
+    /// The call script runs only for calls with per-thread ordinal below this.
+    f_limit: Option<u64>,
+    /// Watchdog: a thread making more calls than this panics.
+    budget: u64,
     g: Vec<Tok>,
     k: Vec<Tok>,
     f: Vec<Tok>,
@@ -59,6 +65,9 @@ struct Cfg {
 static CFG: RwLock<Cfg> = RwLock::new(Cfg {
     panic: None,
     udrop: false,
+    cost: 0,
+    f_limit: None,
+    budget: u64::MAX,
     g: Vec::new(),
     k: Vec::new(),
     f: Vec::new(),
@@ -306,10 +315,19 @@ fn call_common(carried_in: Option<u64>) -> u64 {
         v::log_event(CALL_PANIC, in_id, 0);
         panic!("injected call panic");
     }
+    let (cost, budget) = with_cfg(|c| (c.cost, c.budget));
+    if ord >= budget {
+        panic!("call budget exhausted");
+    }
     CALL_ORD.with(|c| c.set(ord + 1));
     let out_id = gid(ord);
     v::log_event(CALL, in_id, out_id);
-    with_cfg(|c| run_script(&c.f));
+    with_cfg(|c| {
+        if c.f_limit.map_or(true, |l| ord < l) {
+            run_script(&c.f)
+        }
+    });
+    v::vclock_advance(cost);
     out_id
 }
 
@@ -403,8 +421,9 @@ fn run_case(line: &str) -> String {
     let mut entry = 0u8;
     let mut sh = [false; 4];
     let mut cs = [false; 4];
-    let mut ss = 1u32;
+    let mut ss = Some(1u32);
     let mut sc = 1u32;
+    let mut prec = 1000u128;
     let mut threads = 1usize;
     let mut is_test = false;
     let mut cfg = Cfg::default();
@@ -415,7 +434,10 @@ fn run_case(line: &str) -> String {
             "sh" => sh = bits4(val),
             "cs" => cs = bits4(val),
             "u" => cfg.udrop = val == "1",
-            "ss" => ss = val.parse().expect("ss"),
+            "ss" => ss = if val == "-" { None } else { Some(val.parse().expect("ss")) },
+            "cost" => cfg.cost = val.parse().expect("cost"),
+            "prec" => prec = val.parse().expect("prec"),
+            "FL" => cfg.f_limit = if val == "-" { None } else { Some(val.parse().expect("FL")) },
             "sc" => sc = val.parse().expect("sc"),
             "th" => threads = val.parse().expect("th"),
             "test" => is_test = val == "1",
@@ -433,15 +455,18 @@ fn run_case(line: &str) -> String {
             _ => panic!("unknown key {k}"),
         }
     }
+    // Tuned sample size: a call must cost at least one tick or tuning never ends;
+    // the budget turns a runaway into a panic outcome.
+    cfg.budget = if ss.is_none() { 20_000 } else { u64::MAX };
     *CFG.write().unwrap_or_else(|e| e.into_inner()) = cfg;
     reset_thread();
 
     let mut options = divan::__private::BenchOptions::default();
-    options.sample_size = Some(ss);
+    options.sample_size = ss;
     options.sample_count = Some(sc);
 
     let freq = 1_000_000_000u64;
-    v::set_precision_override(Some(1000));
+    v::set_precision_override(Some(prec));
     v::set_overhead_override(Some([0; 4]));
     v::log_take();
     v::log_reserve(1 << 16);
@@ -512,7 +537,7 @@ fn run_case(line: &str) -> String {
 
 fn dispatch(mode: &str, line: &str) -> String {
     match mode {
-        "run" | "alloc" | "panic" => run_case(line),
+        "run" | "alloc" | "panic" | "tuned" | "tuned-alloc" => run_case(line),
         _ => panic!("unknown mode {mode}"),
     }
 }
